@@ -56,6 +56,12 @@ def check_suggestions(dialect, L, P, toks, r, st):
         if hasattr(t, 'fixed') and t.fixed is None:
             st['findings'].append({'kind': 'c19-bad-token-not-first', 'dialect': dialect, 'types': [str(x.type) for x in toks], 'e': e})
             return
+    # the parser reported a syntax error at a token (or at the end of input): the message must show the source with carets under it -
+    # whatever else happens while the reporter tries out its suggestions
+    if '^' not in r.message:
+        st['findings'].append({'kind': 'c19-message-without-location', 'dialect': dialect, 'types': [str(x.type) for x in toks], 'e': e,
+                               'message': r.message[:200]})
+        return
     last = r.message.split('\n')[-1]
     if not (last.startswith('Possible inputs: ') or last.startswith('Expected symbol: ')):
         return
